@@ -25,6 +25,7 @@ PRELUDE = r"""
 #include <cstdint>
 #include <numeric>
 #include <functional>
+#include <stdexcept>
 namespace xAOD {
   struct Jet {
     int vi; float vf; double vd; bool vb; int vi2; float vf2; double vd2; bool vb2;
